@@ -602,7 +602,9 @@ func cellValue(cell ssa.Value) ssa.Value {
 			return nil
 		}
 	}
-	if st == nil || st.Block() != fn.Blocks[0] {
+	// assigned once, in the entry block or in the very block that creates the variable (a variable declared inside
+	// a loop body is a fresh cell per iteration), before anything else looks at it
+	if st == nil || (st.Block() != fn.Blocks[0] && st.Block() != al.Block()) {
 		return nil
 	}
 	// every other use comes after the store
@@ -611,6 +613,9 @@ func cellValue(cell ssa.Value) ssa.Value {
 			continue
 		}
 		if rr.Block() == st.Block() && instrIndex(rr) < instrIndex(st) {
+			return nil
+		}
+		if rr.Block() != st.Block() && !st.Block().Dominates(rr.Block()) {
 			return nil
 		}
 	}
@@ -629,4 +634,55 @@ func capturedLoad(v ssa.Value) ssa.Value {
 		}
 	}
 	return v
+}
+
+// retCase is one way a function returns: the values handed back once the phis that merge several exits into a
+// single return statement (named results, "single exit" style) have been taken apart, edge by edge.
+type retCase struct {
+	Ret  *ssa.Return
+	Vals []ssa.Value
+	Via  *ssa.BasicBlock // the block control came from (where the values were chosen); the return's own block if no phi was split
+	N    int             // running number, for messages
+}
+
+// returnCases expands every return of fn into its cases: when results are phis of one block, each incoming edge of
+// that block is a case of its own, with every such phi replaced by its value on that edge (so that "pointer nil
+// iff error non-nil" can be judged per case even when both are named results merged at one exit). Up to three
+// levels of merging are taken apart.
+func returnCases(fn *ssa.Function) []retCase {
+	var out []retCase
+	n := 0
+	var expand func(ret *ssa.Return, vals []ssa.Value, via *ssa.BasicBlock, depth int)
+	expand = func(ret *ssa.Return, vals []ssa.Value, via *ssa.BasicBlock, depth int) {
+		var blk *ssa.BasicBlock
+		if depth < 3 {
+			for _, v := range vals {
+				if phi, ok := v.(*ssa.Phi); ok {
+					if blk == nil || phi.Block().Dominates(blk) == false && blk.Dominates(phi.Block()) {
+						blk = phi.Block()
+					}
+				}
+			}
+		}
+		if blk == nil {
+			n++
+			out = append(out, retCase{ret, vals, via, n})
+			return
+		}
+		for k, pred := range blk.Preds {
+			nv := make([]ssa.Value, len(vals))
+			for i, v := range vals {
+				if phi, ok := v.(*ssa.Phi); ok && phi.Block() == blk {
+					nv[i] = phi.Edges[k]
+				} else {
+					nv[i] = v
+				}
+			}
+			expand(ret, nv, pred, depth+1)
+		}
+	}
+	for _, ret := range returnsOf(fn) {
+		expand(ret, results(ret), ret.Block(), 0)
+	}
+	return out
 }
